@@ -118,6 +118,7 @@ class Ctx:
     self.viol_mechs = {}
     self.only_case = spec.get('only_case')
     self.case_id = None
+    self.records = []
 
   def rng(self, *label):
     return Rng('%s/%d/%s/%s' % (self.prop, self.seed, self.shard,
@@ -137,6 +138,10 @@ class Ctx:
   def sample(self, obj, limit=4):
     if len(self.samples) < limit:
       self.samples.append(jsonable(obj))
+
+  def record(self, obj):
+    """Event-log entry for offline checkers that run in the parent."""
+    self.records.append(jsonable(obj))
 
   def want(self, case_id):
     """Case filter used by --replay; also sets the current case id."""
@@ -158,7 +163,7 @@ class Ctx:
         'shard': self.shard, 'counters': self.counters,
         'digests': sorted(self.digests), 'samples': self.samples,
         'violations': self.violations, 'viol_mechs': self.viol_mechs,
-        'error': error}
+        'records': self.records, 'error': error}
 
 
 def load_check(prop):
